@@ -82,7 +82,9 @@ impl Out {
         let f = self.files.entry(file.to_string()).or_insert_with(|| {
             std::io::BufWriter::new(std::fs::File::create(format!("{}/{}", dir, file)).unwrap())
         });
-        f.write_all(line.as_bytes()).unwrap();
+        // one record per line: a panic message or a file name inside a record may contain newlines
+        let one = if line.contains('\n') || line.contains('\r') { line.replace(['\n', '\r'], " ") } else { line.to_string() };
+        f.write_all(one.as_bytes()).unwrap();
         f.write_all(b"\n").unwrap();
     }
     /// Records the case that is about to be executed (unbuffered).  If the process dies inside the implementation
@@ -151,9 +153,17 @@ impl Out {
     }
 }
 
+thread_local! {
+    /// set while code under test runs inside `catch` (its panics are results, not harness failures)
+    pub static IN_CATCH: std::cell::Cell<bool> = const { std::cell::Cell::new(false) };
+}
+
 /// Run `f`, mapping a panic to `Err(message)`.
 pub fn catch<T>(f: impl FnOnce() -> T + std::panic::UnwindSafe) -> Result<T, String> {
-    std::panic::catch_unwind(f).map_err(|e| {
+    let prev = IN_CATCH.with(|c| c.replace(true));
+    let r = std::panic::catch_unwind(f);
+    IN_CATCH.with(|c| c.set(prev));
+    r.map_err(|e| {
         if let Some(s) = e.downcast_ref::<&str>() {
             (*s).to_string()
         } else if let Some(s) = e.downcast_ref::<String>() {
